@@ -184,8 +184,17 @@ pub(super) fn try_parse_hex_integer(source: &str) -> Option<NumericParserResult>
             })
         }
         Err(Overflow(_)) => {
-            match parse_partial_with_options::<f64, _, SAS_HEX>(byte_view, &SAS_PARSE_FLOAT_OPTIONS)
-            {
+            // Only the run of HEX digits is the literal. The float parser would otherwise also
+            // consume a fraction (`.b`), which is not part of a SAS HEX literal
+            let digits_len = byte_view
+                .iter()
+                .position(|c| !c.is_ascii_hexdigit())
+                .unwrap_or(byte_view.len());
+
+            match parse_partial_with_options::<f64, _, SAS_HEX>(
+                byte_view.get(..digits_len).unwrap_or(byte_view),
+                &SAS_PARSE_FLOAT_OPTIONS,
+            ) {
                 Ok((value, len)) => {
                     // Len can't be possibly 0 here, as we already tried to parse as u64 and
                     // it failed with overflow (meaning the number is too big but still valid).
